@@ -51,6 +51,7 @@ HEAVY = {
     'selfies/decoder.py::_form_rings_bilocally',
     'selfies/mol_graph.py::MolecularGraph.add_ring_bond',
     'selfies/mol_graph.py::MolecularGraph.update_bond_order',
+    'selfies/grammar_rules.py::_process_atom_selfies_no_cache',     # regex / int() string obligations (cvc5, 10-20 s each)
 }
 
 
